@@ -198,6 +198,25 @@ def do_kwcalls(tree):
       n.args = n.args[:1]
 
 
+def do_annassign(tree):
+  """`self.x = v` in __init__ and single-name assignments in functions -> annotated assignments `x: 'Any' = v`."""
+  class T(ast.NodeTransformer):
+    def __init__(self): self.depth = 0
+    def visit_FunctionDef(self, n):
+      self.depth += 1
+      old = getattr(self, 'glob', set())
+      self.glob = {x for g in ast.walk(n) if isinstance(g, (ast.Global, ast.Nonlocal)) for x in g.names}
+      self.generic_visit(n)
+      self.glob = old
+      self.depth -= 1
+      return n
+    def visit_Assign(self, n):
+      if self.depth and len(n.targets) == 1 and not (isinstance(n.targets[0], ast.Name) and n.targets[0].id in self.glob) and isinstance(n.targets[0], (ast.Name, ast.Attribute)) and not isinstance(n.value, ast.Tuple):
+        return ast.copy_location(ast.AnnAssign(target=n.targets[0], annotation=ast.Constant(value='Any'), value=n.value, simple=int(isinstance(n.targets[0], ast.Name))), n)
+      return n
+  T().visit(tree)
+
+
 def main():
   mode = sys.argv[1]
   files = sys.argv[2:] or CORE
@@ -212,6 +231,7 @@ def main():
       elif mode == 'swapif': do_swapif(tree)
       elif mode == 'fstring': do_fstring(tree)
       elif mode == 'hints': do_hints(tree)
+      elif mode == 'annassign': do_annassign(tree)
       elif mode == 'guard': do_guard(tree)
       elif mode == 'kwcalls': do_kwcalls(tree)
       elif mode == 'elseify':
